@@ -42,6 +42,11 @@ type validationContext struct {
 	switchDepth    int // switches entered since the innermost enclosing loop body
 	inContinuing   bool
 	expressionUsed map[ExpressionHandle]bool
+
+	// continuingLoopDepth is the loopDepth of the loop whose continuing block is being
+	// validated: break/continue are only forbidden when they would target that loop,
+	// not a loop nested inside the continuing block.
+	continuingLoopDepth int
 }
 
 // Validate checks the IR module for correctness.
@@ -603,9 +608,12 @@ func (v *Validator) validateStatement(index int, stmt *Statement) {
 		v.validateBlock(kind.Body)
 
 		oldContinuing := v.context.inContinuing
+		oldContinuingLoopDepth := v.context.continuingLoopDepth
 		v.context.inContinuing = true
+		v.context.continuingLoopDepth = v.context.loopDepth
 		v.validateBlock(kind.Continuing)
 		v.context.inContinuing = oldContinuing
+		v.context.continuingLoopDepth = oldContinuingLoopDepth
 
 		if kind.BreakIf != nil {
 			if !v.isValidExpressionHandle(*kind.BreakIf) {
@@ -622,7 +630,7 @@ func (v *Validator) validateStatement(index int, stmt *Statement) {
 		if v.context.loopDepth == 0 {
 			v.addErrorInStatement(index, "break outside of loop")
 		}
-		if v.context.inContinuing {
+		if v.context.inContinuing && v.context.loopDepth == v.context.continuingLoopDepth {
 			v.addErrorInStatement(index, "break in continuing block")
 		}
 
@@ -630,7 +638,7 @@ func (v *Validator) validateStatement(index int, stmt *Statement) {
 		if v.context.loopDepth == 0 {
 			v.addErrorInStatement(index, "continue outside of loop")
 		}
-		if v.context.inContinuing {
+		if v.context.inContinuing && v.context.loopDepth == v.context.continuingLoopDepth {
 			v.addErrorInStatement(index, "continue in continuing block")
 		}
 
